@@ -48,7 +48,8 @@ def gen_cases(rng, tier: str) -> list[dict]:
             cases.append(c)
     for origin, pairs in (("compensating-magnitudes", common.compensating_products(rng, common.sizes(tier, 150, 1500))),
                           ("vanishing-factor", common.vanishing_products(rng, common.sizes(tier, 150, 1500))),
-                          ("near-special", common.near_special(rng, common.sizes(tier, 150, 1500)))):
+                          ("near-special", common.near_special(rng, common.sizes(tier, 150, 1500))),
+                          ("tiny-powers", common.tiny_powers(rng, common.sizes(tier, 120, 1200)))):
         for e, pt in pairs:
             c = common.make_eval_case(origin, e, pt)
             c["prior"] = []
